@@ -212,12 +212,23 @@ impl Runner {
 
     /// Returns None when the run straddled a wall-clock second (caller retries).
     pub fn run(&self, s: &MScript) -> Option<Vec<Value>> {
+        self.run_aligned(s, false)
+    }
+
+    /// Virtual time is exact only if the whole run lies inside one wall-clock second (whole-second
+    /// stamps of the async caches) and lasts less than a second (`Instant` ages of the sync caches);
+    /// runs without any ttl are not time-sensitive at all.
+    pub fn run_aligned(&self, s: &MScript, align: bool) -> Option<Vec<Value>> {
         let (threads, line, mut cur) = self.prepare(s, "reset");
+        let timed = s.fixtures.iter().any(|n| self.fixtures[n].cfg.ttl != 0);
+        if timed && align {
+            align_to_second();
+        }
         let t0 = Instant::now();
         let sec0 = unix_now();
         let mut out: Vec<Value> = vec![line];
         self.exec_ops(s, threads, &mut cur, &mut out);
-        if unix_now() != sec0 || t0.elapsed() > Duration::from_millis(400) {
+        if timed && (unix_now() != sec0 || t0.elapsed() > Duration::from_millis(900)) {
             return None;
         }
         Some(out)
@@ -571,8 +582,8 @@ impl Runner {
     }
 
     pub fn run_retry(&self, s: &MScript) -> Vec<Value> {
-        for _ in 0..60 {
-            let r = self.run(s);
+        for attempt in 0..60 {
+            let r = self.run_aligned(s, attempt > 0);
             if self.hung.get() {
                 // keep the evidence of the hang even if the second boundary was crossed meanwhile
                 return r.unwrap_or_else(|| vec![json!({"ev": "hang", "n": "", "sts": {}})]);
